@@ -92,6 +92,10 @@ func (mod *Module) findIdentityBase(baseStr string) (*resolvedIdentity, []error)
 	basePrefix, baseName := getPrefix(baseStr)
 	rootPrefix := mod.GetPrefix()
 	source := Source(mod)
+	if mod.Modules == nil {
+		// E.g., a typedef left behind by a module that failed to load.
+		return &base, []error{fmt.Errorf("%s: can't resolve the base %s, %s is not part of a set of modules", source, baseStr, mod.Name)}
+	}
 	typeDict := mod.Modules.typeDict
 
 	switch basePrefix {
